@@ -86,4 +86,15 @@ def shadowing (ignore : String → Bool) (σ : St) : List Diag :=
         else if ignore v.name || v.name = "..." then none
         else some { code := "shadowing", primary := ⟨v.ident, v.ident⟩, secondary := [⟨sv.ident, sv.ident⟩], detail := v.name }
 
+/-- `must_use` (must_use.rs): one diagnostic per call *statement* whose name path is a `must_use`
+library function — unless the called name is bound by the script -/
+def mustUse (isMustUse : List String → Bool) (σ : St) : List Diag :=
+  σ.calls.toList.filterMap fun c =>
+    match σ.refs[c.initialRef]? with
+    | none => none
+    | some r =>
+      if r.resolved.isSome then none
+      else if isMustUse c.namePath then some { code := "must_use", primary := c.prefixSpan, detail := ".".intercalate c.namePath }
+      else none
+
 end Selene.Scope
